@@ -3035,7 +3035,10 @@ func (c *compiler) emitCallee(callee compiledExpr) (calleeName unistring.String)
 	case *compiledOptionalChain:
 		c.startOptChain()
 		c.emitCallee(callee.expr)
+		// a short-circuited chain leaves a single undefined, but a callee is two values ('this' and the function)
+		c.emit(jump(2))
 		c.endOptChain()
+		c.emit(loadUndef)
 	case *compiledOptional:
 		c.emitCallee(callee.expr)
 		c.block.conts = append(c.block.conts, len(c.p.code))
